@@ -991,6 +991,12 @@ func runSync(name, runFn string, withF7 bool, tier string, seed uint64, out stri
 		term, desc = runSlowSaveDuringConnect(stats)
 		desc["index"] = -9
 		cs.add(term, desc, "sync-run", true)
+		term, desc = runCloseDuringDial(stats, false)
+		desc["index"] = -10
+		cs.add(term, desc, "sync-run", true)
+		term, desc = runCloseDuringDial(stats, true)
+		desc["index"] = -11
+		cs.add(term, desc, "sync-run", true)
 	}
 	if withF7 {
 		var term string
@@ -1020,6 +1026,79 @@ func runSync(name, runFn string, withF7 bool, tier string, seed uint64, out stri
 		cs.dist[k] = v
 	}
 	return cs.write(out, 5)
+}
+
+// runCloseDuringDial (C12 "return promptly from every client state ... dialing"): ReadSlices is
+// inside a Dialer that honours its context (as net.Dialer does) and would otherwise take as long
+// as it likes; PauseTimeout is set, so the dial context is a derived one. Close, respectively
+// Disconnect, has to come back at once: its cancellation must reach the Dialer.
+func runCloseDuringDial(stats map[string]int, disconnect bool) (string, map[string]any) {
+	waitQuiet()
+	rec := &syncRec{}
+	mqtt.VerifEvent = rec.hook
+	defer func() { mqtt.VerifEvent = defaultHook }()
+	store := newSimStore(&evlog{})
+	inDial := make(chan struct{})
+	dialOver := make(chan struct{})
+	var once, once2 sync.Once
+	cfg := mqtt.Config{PauseTimeout: 6 * time.Second, Dialer: func(ctx context.Context) (net.Conn, error) {
+		once.Do(func() { close(inDial) })
+		<-ctx.Done()
+		once2.Do(func() { close(dialOver) })
+		return nil, ctx.Err()
+	}}
+	client, err := mqtt.InitSession("cdd", store, &cfg)
+	if err != nil {
+		panic(err)
+	}
+	s := &schedCalls{}
+	// one goroutine makes all ReadSlices calls (the client's contract)
+	type rres struct {
+		g   int
+		err error
+	}
+	rch := make(chan rres, 2)
+	goAgain := make(chan struct{})
+	go func() {
+		g := gid()
+		rch <- rres{g, safelyNow(func() error { _, _, err := client.ReadSlices(); return err })}
+		<-goAgain
+		rch <- rres{g, safelyNow(func() error { _, _, err := client.ReadSlices(); return err })}
+	}()
+	waitRead := func(limit time.Duration, after bool) bool {
+		select {
+		case r := <-rch:
+			s.note(r.g, 0, r.err, after)
+			return true
+		case <-time.After(limit):
+			s.note(0, 0, errHung, after)
+			return false
+		}
+	}
+	label := "Close while ReadSlices is inside a context-honouring Dialer (PauseTimeout set)"
+	if disconnect {
+		label = "Disconnect while ReadSlices is inside a context-honouring Dialer (PauseTimeout set)"
+	}
+	if !waitCh(inDial, 2*time.Second) {
+		waitRead(2*time.Second, false)
+		return renderSched(rec, s, label+" [dial not reached]")
+	}
+	var waitEnd func(time.Duration) bool
+	if disconnect {
+		waitEnd = s.start(4, func() error { return client.Disconnect(nil) })
+	} else {
+		waitEnd = s.start(3, client.Close)
+	}
+	prompt := waitEnd(2 * time.Second)
+	if waitRead(2*time.Second, false) && prompt {
+		close(goAgain)
+		waitRead(2*time.Second, true)
+	} else {
+		stats["close-during-dial:hung"]++
+		waitCh(dialOver, 8*time.Second) // let the stragglers finish before the next scenario records
+		time.Sleep(50 * time.Millisecond)
+	}
+	return renderSched(rec, s, label)
 }
 
 // schedCalls collects API observations of the gated scenarios below.
